@@ -23,13 +23,13 @@ TIERS = {
                                 "xml": [("test", 0, 150), ("xml-test-plain", 1, 90)],
                                 "rest": [("test", 0, 40), ("std", 1, 20)],
                                 "tar": [("test", 0, 20), ("tar-test", 1, 12)]}),
-    "thorough": dict(cap=170, runs=None),
+    "thorough": dict(cap=150, runs=None),
 }
 TIERS["thorough"]["runs"] = {f: [(c, s, n) for c in cs for s in (0, 1, 2)] for f, cs, n in (
-    ("csv", ("test", "xml-test-plain", "scriptsize-test"), 150),
-    ("xml", ("test", "std", "xml-test-plain"), 200),
-    ("rest", ("test", "std", "scriptsize-test"), 70),
-    ("tar", ("test", "tar-test", "scriptsize-test"), 60))}
+    ("csv", ("test", "xml-test-plain", "scriptsize-test"), 120),
+    ("xml", ("test", "std", "xml-test-plain"), 160),
+    ("rest", ("test", "std", "scriptsize-test"), 60),
+    ("tar", ("test", "tar-test", "scriptsize-test"), 50))}
 JCFG = "INIT JInit\nNEXT JNext\nINVARIANT Judged\nCHECK_DEADLOCK FALSE\n"
 STAT_NAMES = {"csv": ("csv_records", "csv_columns_of_first_record", None),
               "xml": ("xml_tags", "xml_attributes", "xml_namespace_prefix_uses"),
